@@ -24,6 +24,24 @@ def _digest(key):
     return hashlib.blake2b(repr(key).encode(), digest_size=12).digest()
 
 
+_RECENT = collections.deque(maxlen=40)  # the last worlds this worker process ran: (cfg, history)
+_PRELUDE_TRIES = collections.Counter()
+
+
+def _attach_prelude(modname, cfg, hist, ev, viols):
+    """A worker is a long-lived process: what an earlier world left behind in process-wide state of the library
+    can make a later history fail (or hide its failure).  A failing history is therefore re-run in a fresh
+    interpreter at once; if it holds there, the recent worlds of this worker are tried as a prelude.  The case
+    then carries its prelude and is confirmed as [prelude, case] in a fresh interpreter (core.finish)."""
+    case = {"cfg": cfg, "hist": list(hist) + [list(ev)]}
+    key = viols[0][0]
+    if _PRELUDE_TRIES[key] >= 2:
+        return None
+    _PRELUDE_TRIES[key] += 1
+    recent = [{"cfg": c, "hist": [list(e) for e in h]} for c, h in _RECENT if (c, h) != (cfg, tuple(hist) + (tuple(ev),))]
+    return core.find_prelude(modname, case, recent, max_tries=16)
+
+
 def _expand_task(args):
     """returns compact per-node results: the main process only sees 12-byte state digests"""
     modname, items = args
@@ -44,7 +62,14 @@ def _expand_task(args):
             for r in rs:
                 agg[r["outcome"]] += 1
                 steps += r.get("steps", len(hist) + 1)
-                compact.append((r["ev"], _digest(r["key"]), bool(r.get("nontrivial")), bool(r.get("stop")), r["viol"]))
+                prelude = None
+                if r["viol"]:
+                    try:
+                        prelude = _attach_prelude(modname, cfg, hist, r["ev"], r["viol"])
+                    except BaseException:  # noqa
+                        prelude = None
+                compact.append((r["ev"], _digest(r["key"]), bool(r.get("nontrivial")), bool(r.get("stop")), r["viol"], prelude))
+                _RECENT.append((cfg, tuple(tuple(e) for e in hist) + (tuple(r["ev"]),)))
             out.append((ci, hist, compact, None))
     finally:
         core.cleanup_scratch()
@@ -92,10 +117,15 @@ def run_bfs(modname, configs, st, max_depth, max_states, deadline_s, chunk=24, n
                         st.extra.setdefault("harness_errors", []).append(err)
                         continue
                     cfg = configs[ci]
-                    for ev, k, nontriv, stop, viols in results:
+                    for ev, k, nontriv, stop, viols, prelude in results:
                         st.transitions += 1
                         for sig, oracle, exp, obs in viols:
-                            st.violation(sig, {"cfg": cfg, "hist": list(hist) + [ev]}, oracle, expected=exp, observed=obs)
+                            case = {"cfg": cfg, "hist": list(hist) + [ev]}
+                            if prelude:
+                                # fails only after another world ran in the same process
+                                case["prelude"] = prelude
+                                sig = sig + ":only after another history in the same process"
+                            st.violation(sig, case, oracle, expected=exp, observed=obs)
                         if stop:
                             continue  # do not explore beyond a transition the model could not follow
                         if k not in seen[ci]:
